@@ -1,4 +1,1143 @@
 package lint
 
-// reachDefs is filled in by the flow engine (terms.go grows in a later step).
-type reachDefs struct{}
+import (
+	"fmt"
+	"go/token"
+	"go/types"
+	"sort"
+	"strings"
+
+	"golang.org/x/tools/go/ssa"
+
+	"rosmarlint/sqlp"
+)
+
+// ---------------------------------------------------------------------------
+// Engine B: reaching definitions over abstract locations and a small term language.
+// Two uses are "the same value" iff their terms are structurally equal.
+// ---------------------------------------------------------------------------
+
+// loc is an abstract memory location: a cell (local Alloc or captured FreeVar) or a field
+// of an object (an Alloc'ed struct, or the struct a pointer parameter points to).
+type loc struct {
+	obj   ssa.Value // *ssa.Alloc, *ssa.FreeVar, *ssa.Parameter, or an opaque pointer value
+	field int       // -1 for the cell itself
+}
+
+type defKind int
+
+const (
+	dStore defKind = iota
+	dScan          // filled by a Scan call (weak: the previous value survives when no row is read)
+	dClosure       // possibly written by a closure handed to a call (value at the closure's exit)
+	dCall          // address passed to a call the engine does not model
+	dEntry         // value on entry to the function
+)
+
+type def struct {
+	kind  defKind
+	instr ssa.Instruction
+	store *ssa.Store
+	scan  *scanCall
+	col   int
+	clos  *ssa.Function // dClosure
+	fv    *ssa.FreeVar  // the closure's free variable for the cell
+}
+
+type defset []*def
+
+type reachDefs struct {
+	fn   *ssa.Function
+	at   map[ssa.Instruction]map[loc]defset // state BEFORE each instruction that loads or is a call/return
+	exit map[loc]defset                     // union over normal returns
+}
+
+// objOf resolves a pointer-valued SSA value to the object it points to, using the current
+// reaching definitions for cells that hold pointers.
+func (m *Model) objOf(v ssa.Value, state map[loc]defset) ssa.Value {
+	v = stripConv(v)
+	switch x := v.(type) {
+	case *ssa.Alloc, *ssa.Parameter, *ssa.FreeVar:
+		return v
+	case *ssa.UnOp:
+		if x.Op == token.MUL {
+			if cellObj, ok := x.X.(*ssa.Alloc); ok {
+				ds := state[loc{cellObj, -1}]
+				if len(ds) == 1 && ds[0].kind == dStore {
+					return m.objOf(ds[0].store.Val, state)
+				}
+			}
+			if fv, ok := x.X.(*ssa.FreeVar); ok {
+				ds := state[loc{fv, -1}]
+				if len(ds) == 1 && ds[0].kind == dStore {
+					return m.objOf(ds[0].store.Val, state)
+				}
+			}
+		}
+	case *ssa.Phi:
+		// all edges the same object?
+		var o ssa.Value
+		for _, e := range x.Edges {
+			oe := m.objOf(e, state)
+			if o == nil {
+				o = oe
+			} else if o != oe {
+				return v
+			}
+		}
+		if o != nil {
+			return o
+		}
+	}
+	return v
+}
+
+// locOf turns an address value into a location.
+func (m *Model) locOf(addr ssa.Value, state map[loc]defset) (loc, bool) {
+	addr = stripConv(addr)
+	switch x := addr.(type) {
+	case *ssa.Alloc:
+		return loc{x, -1}, true
+	case *ssa.FreeVar:
+		return loc{x, -1}, true
+	case *ssa.FieldAddr:
+		return loc{m.objOf(x.X, state), x.Field}, true
+	}
+	return loc{}, false
+}
+
+func cloneState(s map[loc]defset) map[loc]defset {
+	o := make(map[loc]defset, len(s))
+	for k, v := range s {
+		o[k] = append(defset(nil), v...)
+	}
+	return o
+}
+
+func mergeDefs(a, b defset) defset {
+	out := append(defset(nil), a...)
+	for _, d := range b {
+		dup := false
+		for _, e := range out {
+			if e == d {
+				dup = true
+			}
+		}
+		if !dup {
+			out = append(out, d)
+		}
+	}
+	return out
+}
+
+func sameDefs(a, b defset) bool {
+	if len(a) != len(b) {
+		return false
+	}
+	for _, d := range a {
+		found := false
+		for _, e := range b {
+			if d == e {
+				found = true
+			}
+		}
+		if !found {
+			return false
+		}
+	}
+	return true
+}
+
+var entryDef = &def{kind: dEntry}
+
+// reaching computes (and caches) the reaching definitions of fn.
+func (m *Model) reaching(fn *ssa.Function) *reachDefs {
+	if rd, ok := m.rd[fn]; ok {
+		return rd
+	}
+	rd := &reachDefs{fn: fn, at: map[ssa.Instruction]map[loc]defset{}, exit: map[loc]defset{}}
+	m.rd[fn] = rd
+	n := len(fn.Blocks)
+	if n == 0 {
+		return rd
+	}
+	scanByCall := map[ssa.Instruction]*scanCall{}
+	for _, sc := range m.scanCalls() {
+		if sc.Fn == fn {
+			scanByCall[sc.Call] = sc
+		}
+	}
+	// one def object per program point, so that the fixpoint terminates
+	storeDefs := map[*ssa.Store]*def{}
+	scanDefs := map[string]*def{}
+	closDefs := map[string]*def{}
+	callDefs := map[string]*def{}
+	in := make([]map[loc]defset, n)
+	out := make([]map[loc]defset, n)
+	in[0] = map[loc]defset{}
+	get := func(st map[loc]defset, l loc) defset {
+		if ds, ok := st[l]; ok {
+			return ds
+		}
+		return defset{entryDef}
+	}
+	for iter := 0; iter < 60; iter++ {
+		changed := false
+		for bi, b := range fn.Blocks {
+			var cur map[loc]defset
+			if bi == 0 {
+				cur = cloneState(in[0])
+			} else {
+				first := true
+				for _, p := range b.Preds {
+					po := out[p.Index]
+					if po == nil {
+						continue
+					}
+					if first {
+						cur = cloneState(po)
+						first = false
+						continue
+					}
+					// join: union; a location missing on one side means "entry value" there
+					for l, ds := range po {
+						if _, ok := cur[l]; ok {
+							cur[l] = mergeDefs(cur[l], ds)
+						} else {
+							cur[l] = mergeDefs(defset{entryDef}, ds)
+						}
+					}
+					for l := range cur {
+						if _, ok := po[l]; !ok {
+							cur[l] = mergeDefs(cur[l], defset{entryDef})
+						}
+					}
+				}
+				if cur == nil {
+					continue
+				}
+			}
+			for _, ins := range b.Instrs {
+				switch x := ins.(type) {
+				case *ssa.UnOp, *ssa.Return:
+					rd.at[ins] = cloneState(cur)
+				case *ssa.Store:
+					rd.at[ins] = cloneState(cur)
+					if l, ok := m.locOf(x.Addr, cur); ok {
+						d := storeDefs[x]
+						if d == nil {
+							d = &def{kind: dStore, instr: x, store: x}
+							storeDefs[x] = d
+						}
+						cur[l] = defset{d}
+					}
+				case ssa.CallInstruction:
+					rd.at[ins] = cloneState(cur)
+					if sc, ok := scanByCall[ins]; ok && sc.Dests != nil {
+						for i, dst := range sc.Dests {
+							if l, ok := m.locOf(dst, cur); ok {
+								k := fmt.Sprintf("%p/%d", ins, i)
+								d := scanDefs[k]
+								if d == nil {
+									d = &def{kind: dScan, instr: ins, scan: sc, col: i}
+									scanDefs[k] = d
+								}
+								cur[l] = mergeDefs(defset{d}, get(cur, l)) // weak update
+							}
+						}
+						continue
+					}
+					cc := x.Common()
+					// closures handed to the call may write the cells they capture
+					for _, arg := range cc.Args {
+						mc, ok := arg.(*ssa.MakeClosure)
+						if !ok {
+							continue
+						}
+						clos := mc.Fn.(*ssa.Function)
+						for i, bnd := range mc.Bindings {
+							if i >= len(clos.FreeVars) {
+								continue
+							}
+							if cell, ok := bnd.(*ssa.Alloc); ok && m.closureStores(clos, clos.FreeVars[i]) {
+								k := fmt.Sprintf("%p/%p", ins, cell)
+								d := closDefs[k]
+								if d == nil {
+									d = &def{kind: dClosure, instr: ins, clos: clos, fv: clos.FreeVars[i]}
+									closDefs[k] = d
+								}
+								l := loc{cell, -1}
+								if m.closureStoreDominatesExit(clos, clos.FreeVars[i]) {
+									cur[l] = defset{d}
+								} else {
+									cur[l] = mergeDefs(defset{d}, get(cur, l))
+								}
+							}
+						}
+					}
+					// addresses passed to calls the engine does not model
+					for ai, arg := range cc.Args {
+						a := stripConv(arg)
+						if _, isAddr := a.Type().Underlying().(*types.Pointer); !isAddr {
+							continue
+						}
+						switch a.(type) {
+						case *ssa.Alloc, *ssa.FieldAddr:
+						default:
+							continue
+						}
+						callee := cc.StaticCallee()
+						if callee != nil && !cc.IsInvoke() && m.inPkg(callee) && !paramWritten(callee, ai, 0) {
+							continue
+						}
+						if l, ok := m.locOf(a, cur); ok && l.field == -1 {
+							if al, ok := l.obj.(*ssa.Alloc); ok {
+								if _, isStruct := al.Type().Underlying().(*types.Pointer).Elem().Underlying().(*types.Struct); isStruct {
+									continue // pointer to a struct object (e.g. the event): fields are tracked individually
+								}
+							}
+							k := fmt.Sprintf("%p/%d", ins, ai)
+							d := callDefs[k]
+							if d == nil {
+								d = &def{kind: dCall, instr: ins}
+								callDefs[k] = d
+							}
+							cur[l] = defset{d}
+						}
+					}
+				}
+			}
+			if out[bi] == nil || !sameState(out[bi], cur) {
+				out[bi] = cur
+				changed = true
+			}
+		}
+		if !changed {
+			break
+		}
+	}
+	for _, ret := range returnsOf(fn) {
+		st := rd.at[ret]
+		for l, ds := range st {
+			rd.exit[l] = mergeDefs(rd.exit[l], ds)
+		}
+	}
+	return rd
+}
+
+func sameState(a, b map[loc]defset) bool {
+	if len(a) != len(b) {
+		return false
+	}
+	for l, ds := range a {
+		if !sameDefs(ds, b[l]) {
+			return false
+		}
+	}
+	return true
+}
+
+// closureStores: does the closure (or closures nested in it) store to its free variable?
+func (m *Model) closureStores(clos *ssa.Function, fv *ssa.FreeVar) bool {
+	if fv.Referrers() == nil {
+		return false
+	}
+	for _, ref := range *fv.Referrers() {
+		if st, ok := ref.(*ssa.Store); ok && st.Addr == ssa.Value(fv) {
+			return true
+		}
+	}
+	return false
+}
+
+// closureStoreDominatesExit: some store to fv dominates every normal return of the closure.
+func (m *Model) closureStoreDominatesExit(clos *ssa.Function, fv *ssa.FreeVar) bool {
+	for _, ref := range *fv.Referrers() {
+		st, ok := ref.(*ssa.Store)
+		if !ok || st.Addr != ssa.Value(fv) {
+			continue
+		}
+		all := true
+		for _, ret := range returnsOf(clos) {
+			if !(st.Block() == ret.Block() || st.Block().Dominates(ret.Block())) {
+				all = false
+			}
+		}
+		if all {
+			return true
+		}
+	}
+	return false
+}
+
+// ---------------------------------------------------------------------------
+// terms
+// ---------------------------------------------------------------------------
+
+type Term struct {
+	Kind string // const, zero, param, scan, call, add1, phi, field, binop, opaque, closure
+	Name string
+	Args []*Term
+	// for scan terms
+	Site   *SQLSite
+	Col    string
+	Handle string
+}
+
+func (t *Term) String() string {
+	if t == nil {
+		return "?"
+	}
+	switch t.Kind {
+	case "zero":
+		return "zero"
+	case "phi":
+		parts := make([]string, len(t.Args))
+		for i, a := range t.Args {
+			parts[i] = a.String()
+		}
+		sort.Strings(parts)
+		return "phi{" + strings.Join(parts, " | ") + "}"
+	}
+	if len(t.Args) == 0 {
+		return t.Kind + ":" + t.Name
+	}
+	parts := make([]string, len(t.Args))
+	for i, a := range t.Args {
+		parts[i] = a.String()
+	}
+	return t.Kind + ":" + t.Name + "(" + strings.Join(parts, ", ") + ")"
+}
+
+func mkPhi(ts []*Term) *Term {
+	// flatten and dedupe
+	var flat []*Term
+	var add func(t *Term)
+	seen := map[string]bool{}
+	add = func(t *Term) {
+		if t.Kind == "phi" {
+			for _, a := range t.Args {
+				add(a)
+			}
+			return
+		}
+		if s := t.String(); !seen[s] {
+			seen[s] = true
+			flat = append(flat, t)
+		}
+	}
+	for _, t := range ts {
+		add(t)
+	}
+	if len(flat) == 1 {
+		return flat[0]
+	}
+	sort.Slice(flat, func(i, j int) bool { return flat[i].String() < flat[j].String() })
+	return &Term{Kind: "phi", Args: flat}
+}
+
+// leaves returns the alternatives of a term (the arguments of a phi, or the term itself).
+func (t *Term) alts() []*Term {
+	if t.Kind == "phi" {
+		return t.Args
+	}
+	return []*Term{t}
+}
+
+type termKey struct {
+	v  ssa.Value
+	at ssa.Instruction
+	fr *frame
+}
+
+type termEval struct {
+	m     *Model
+	memo  map[termKey]*Term
+	busy  map[termKey]bool
+	depth int
+	// writePoint, when set, lets scan terms say whether they read the row before or after it
+	writePoints []ssa.Instruction
+}
+
+func (m *Model) newTermEval() *termEval {
+	return &termEval{m: m, memo: map[termKey]*Term{}, busy: map[termKey]bool{}}
+}
+
+func isZeroValueConst(c *ssa.Const) bool {
+	if c.Value == nil {
+		return true
+	}
+	switch c.Value.Kind().String() {
+	case "Bool":
+		return c.Value.String() == "false"
+	case "Int", "Float":
+		return c.Value.String() == "0"
+	case "String":
+		return c.Value.ExactString() == `""`
+	}
+	return false
+}
+
+// term evaluates value v as seen at instruction `at` in frame fr.
+func (e *termEval) term(v ssa.Value, at ssa.Instruction, fr *frame) *Term {
+	if v == nil {
+		return &Term{Kind: "opaque", Name: "nil-value"}
+	}
+	k := termKey{v, at, fr}
+	if t, ok := e.memo[k]; ok {
+		return t
+	}
+	if e.busy[k] || e.depth > 40 {
+		return &Term{Kind: "opaque", Name: "cyclic:" + v.Name()}
+	}
+	e.busy[k] = true
+	e.depth++
+	t := e.term1(v, at, fr)
+	e.depth--
+	delete(e.busy, k)
+	e.memo[k] = t
+	return t
+}
+
+func (e *termEval) term1(v ssa.Value, at ssa.Instruction, fr *frame) *Term {
+	m := e.m
+	switch x := v.(type) {
+	case *ssa.Const:
+		if isZeroValueConst(x) {
+			return &Term{Kind: "zero"}
+		}
+		return &Term{Kind: "const", Name: x.Value.ExactString()}
+	case *ssa.ChangeType:
+		return e.term(x.X, at, fr)
+	case *ssa.Convert:
+		return e.term(x.X, at, fr)
+	case *ssa.MakeInterface:
+		return e.term(x.X, at, fr)
+	case *ssa.ChangeInterface:
+		return e.term(x.X, at, fr)
+	case *ssa.Parameter:
+		if av, afr, ok := fr.actual(x); ok {
+			return e.term(av, fr.call, afr)
+		}
+		return &Term{Kind: "param", Name: m.declName(x.Parent()) + "." + x.Name()}
+	case *ssa.Phi:
+		var ts []*Term
+		for _, ed := range x.Edges {
+			ts = append(ts, e.term(ed, at, fr))
+		}
+		return mkPhi(ts)
+	case *ssa.BinOp:
+		a, b := e.term(x.X, at, fr), e.term(x.Y, at, fr)
+		if x.Op == token.ADD {
+			if c, ok := stripConv(x.Y).(*ssa.Const); ok && c.Value != nil && c.Value.ExactString() == "1" {
+				return &Term{Kind: "add1", Name: "", Args: []*Term{a}}
+			}
+		}
+		return &Term{Kind: "binop", Name: x.Op.String(), Args: []*Term{a, b}}
+	case *ssa.Alloc:
+		return &Term{Kind: "alloc", Name: fmt.Sprintf("%s#%s", m.declName(x.Parent()), x.Name())}
+	case *ssa.Extract:
+		if call, ok := x.Tuple.(*ssa.Call); ok {
+			return e.callResult(call, x.Index, fr)
+		}
+		if ta, ok := x.Tuple.(*ssa.TypeAssert); ok {
+			return &Term{Kind: "call", Name: "typeassert", Args: []*Term{e.term(ta.X, at, fr)}}
+		}
+		return &Term{Kind: "opaque", Name: m.declName(x.Parent()) + ":" + x.Name()}
+	case *ssa.Call:
+		return e.callResult(x, 0, fr)
+	case *ssa.Field:
+		return &Term{Kind: "field", Name: fieldOfField(x).Name(), Args: []*Term{e.term(x.X, at, fr)}}
+	case *ssa.Slice:
+		return &Term{Kind: "call", Name: "slice", Args: []*Term{e.term(x.X, at, fr)}}
+	case *ssa.UnOp:
+		if x.Op != token.MUL {
+			return &Term{Kind: "call", Name: "unop" + x.Op.String(), Args: []*Term{e.term(x.X, at, fr)}}
+		}
+		return e.load(x, fr)
+	case *ssa.FreeVar:
+		// the cell's address itself (not a load)
+		return &Term{Kind: "cell", Name: x.Name()}
+	case *ssa.Global:
+		return &Term{Kind: "global", Name: x.Name()}
+	}
+	return &Term{Kind: "opaque", Name: m.declName(v.Parent()) + ":" + v.Name()}
+}
+
+// load evaluates *addr at the load instruction itself.
+func (e *termEval) load(ld *ssa.UnOp, fr *frame) *Term {
+	m := e.m
+	fn := ld.Parent()
+	rd := m.reaching(fn)
+	state := rd.at[ld]
+	if state == nil {
+		state = map[loc]defset{}
+	}
+	addr := stripConv(ld.X)
+	if g, ok := addr.(*ssa.Global); ok {
+		return &Term{Kind: "global", Name: g.Name()}
+	}
+	l, ok := m.locOf(addr, state)
+	if !ok {
+		return &Term{Kind: "opaque", Name: m.declName(fn) + ":" + ld.Name()}
+	}
+	ds, have := state[l]
+	if !have {
+		ds = defset{entryDef}
+	}
+	return e.defsTerm(l, ds, ld, fr)
+}
+
+func (e *termEval) defsTerm(l loc, ds defset, at ssa.Instruction, fr *frame) *Term {
+	var ts []*Term
+	for _, d := range ds {
+		switch d.kind {
+		case dStore:
+			ts = append(ts, e.term(d.store.Val, d.store, fr))
+		case dScan:
+			ts = append(ts, e.scanTerm(d, fr))
+		case dCall:
+			ts = append(ts, &Term{Kind: "opaque", Name: "written-by-call@" + e.m.declName(d.instr.Parent())})
+		case dClosure:
+			// value at the closure's exit
+			cfr := &frame{fn: d.clos, caller: fr, depth: fr.depth}
+			crd := e.m.reaching(d.clos)
+			cds := crd.exit[loc{d.fv, -1}]
+			if len(cds) == 0 {
+				cds = defset{entryDef}
+			}
+			var rets []ssa.Instruction
+			for _, r := range returnsOf(d.clos) {
+				rets = append(rets, r)
+			}
+			var at2 ssa.Instruction = d.instr
+			if len(rets) > 0 {
+				at2 = rets[0]
+			}
+			// entry defs inside the closure mean "the value before the call" — exclude self-reference
+			var inner defset
+			for _, cd := range cds {
+				if cd.kind != dEntry {
+					inner = append(inner, cd)
+				}
+			}
+			if len(inner) > 0 {
+				ts = append(ts, e.defsTerm(loc{d.fv, -1}, inner, at2, cfr))
+			}
+		case dEntry:
+			if al, ok := l.obj.(*ssa.Alloc); ok && len(ds) > 1 && at != nil && al.Parent() == at.Parent() {
+				// the zero value is observable only if some path from the allocation reaches `at` without passing a definition
+				c := newCut()
+				for _, d2 := range ds {
+					if d2.instr != nil && d2.kind == dStore {
+						c.cutBlock(d2.instr.Block())
+					}
+				}
+				if al.Block() != at.Block() && !reachableFrom(al.Block(), c)[at.Block().Index] {
+					continue
+				}
+			}
+			ts = append(ts, e.entryTerm(l, at, fr))
+		}
+	}
+	if len(ts) == 0 {
+		return &Term{Kind: "opaque", Name: "no-def"}
+	}
+	return mkPhi(ts)
+}
+
+// entryTerm: the value a location has when the function starts.
+func (e *termEval) entryTerm(l loc, at ssa.Instruction, fr *frame) *Term {
+	m := e.m
+	switch o := l.obj.(type) {
+	case *ssa.Alloc:
+		// a fresh local: zero value (for a composite literal, fields not stored are zero)
+		return &Term{Kind: "zero"}
+	case *ssa.FreeVar:
+		// captured cell: its value where the closure was created, in the lexical parent
+		bind, _ := m.freeVarBinding(o, nil)
+		clos := o.Parent()
+		parent := clos.Parent()
+		if bind == nil || parent == nil {
+			return &Term{Kind: "opaque", Name: "freevar:" + o.Name()}
+		}
+		var pfr *frame
+		if fr != nil && fr.fn == clos && fr.caller != nil && fr.caller.fn == parent {
+			pfr = fr.caller
+		} else {
+			pfr = topFrame(parent)
+		}
+		cell, ok := bind.(*ssa.Alloc)
+		if !ok {
+			return e.term(bind, nil, pfr)
+		}
+		// find the MakeClosure instruction
+		var mcInstr ssa.Instruction
+		for _, b := range parent.Blocks {
+			for _, ins := range b.Instrs {
+				if mc, ok := ins.(*ssa.MakeClosure); ok && mc.Fn == clos {
+					mcInstr = mc
+				}
+			}
+		}
+		if mcInstr == nil {
+			return &Term{Kind: "opaque", Name: "freevar:" + o.Name()}
+		}
+		// the state at the call that receives the closure (MakeClosure itself is not recorded): use the next recorded instruction
+		prd := m.reaching(parent)
+		var st map[loc]defset
+		blk := mcInstr.Block()
+		for i := indexIn(blk, mcInstr); i < len(blk.Instrs); i++ {
+			if s, ok := prd.at[blk.Instrs[i]]; ok {
+				st = s
+				break
+			}
+		}
+		pl := loc{cell, l.field}
+		if l.field >= 0 {
+			pl = loc{m.objOf(cell, st), l.field}
+		}
+		ds, have := st[pl]
+		if !have {
+			ds = defset{entryDef}
+		}
+		return e.defsTerm(pl, ds, mcInstr, pfr)
+	case *ssa.Parameter:
+		// field of the object a pointer parameter points to: look at the caller
+		if av, afr, ok := fr.actual(o); ok && l.field >= 0 {
+			callerFn := afr.fn
+			crd := m.reaching(callerFn)
+			st := crd.at[fr.call]
+			if st == nil {
+				st = map[loc]defset{}
+			}
+			cl := loc{m.objOf(av, st), l.field}
+			ds, have := st[cl]
+			if !have {
+				ds = defset{entryDef}
+			}
+			return e.defsTerm(cl, ds, fr.call, afr)
+		}
+		name := o.Name()
+		if l.field >= 0 {
+			if pt, ok := o.Type().Underlying().(*types.Pointer); ok {
+				if st, ok := pt.Elem().Underlying().(*types.Struct); ok && l.field < st.NumFields() {
+					name += "." + st.Field(l.field).Name()
+				}
+			}
+			if e.m.isTopReceiver(o) {
+				return &Term{Kind: "recv", Name: name}
+			}
+		}
+		return &Term{Kind: "param", Name: m.declName(o.Parent()) + "." + name}
+	}
+	// field of an opaque pointer value
+	if l.field >= 0 {
+		base := e.term(l.obj, at, fr)
+		fname := fmt.Sprint(l.field)
+		if pt, ok := l.obj.Type().Underlying().(*types.Pointer); ok {
+			if st, ok := pt.Elem().Underlying().(*types.Struct); ok && l.field < st.NumFields() {
+				fname = st.Field(l.field).Name()
+			}
+		}
+		return &Term{Kind: "field", Name: fname, Args: []*Term{base}}
+	}
+	return &Term{Kind: "opaque", Name: "entry:" + l.obj.Name()}
+}
+
+func (m *Model) isTopReceiver(p *ssa.Parameter) bool {
+	fn := p.Parent()
+	return fn.Signature.Recv() != nil && len(fn.Params) > 0 && fn.Params[0] == p
+}
+
+// scanTerm: the column a Scan destination receives.
+func (e *termEval) scanTerm(d *def, fr *frame) *Term {
+	sc := d.scan
+	t := &Term{Kind: "scan", Name: "?"}
+	if sc.Site == nil {
+		return t
+	}
+	t.Site = sc.Site
+	// handle class in this calling context
+	t.Handle = classList(sc.Site)
+	if fr != nil {
+		rv, _ := e.m.resolve(sc.Site.Recv, fr)
+		if isPtrToNamed(stripConv(rv).Type(), "database/sql", "Tx") {
+			t.Handle = "txn"
+		} else if isPtrToNamed(stripConv(rv).Type(), "database/sql", "DB") {
+			t.Handle = "pool"
+		} else if c, ok := stripConv(rv).(*ssa.Call); ok {
+			cls := map[HandleClass]bool{}
+			e.m.classifyHandle(c, fr, cls, map[ssa.Value]bool{}, 0)
+			var names []string
+			for k := range cls {
+				names = append(names, k.String())
+			}
+			sort.Strings(names)
+			t.Handle = strings.Join(names, "|")
+		}
+	}
+	var cols []string
+	table := "?"
+	for _, v := range sc.Site.Variants {
+		st := v.Stmt()
+		if st == nil || st.Select == nil || d.col >= len(st.Select.Cols) {
+			continue
+		}
+		if len(st.Select.From) == 1 {
+			table = lower(st.Select.From[0].Name)
+		}
+		cols = append(cols, lower(st.Select.Cols[d.col].Expr.String()))
+	}
+	cols = uniq(cols)
+	t.Col = strings.Join(cols, "|")
+	when := ""
+	if len(e.writePoints) > 0 {
+		after := false
+		for _, wp := range e.writePoints {
+			// the instruction, in the write point's function, that stands for this read
+			var anchor ssa.Instruction = sc.Site.Call
+			for f := fr; f != nil && anchor != nil && anchor.Parent() != wp.Parent(); f = f.caller {
+				if f.call != nil {
+					anchor = f.call
+				} else {
+					anchor = nil
+				}
+			}
+			if anchor != nil && anchor.Parent() == wp.Parent() && instrReachable(wp, anchor, nil) {
+				after = true
+			}
+		}
+		if after {
+			when = ":post"
+		} else {
+			when = ":pre"
+		}
+	}
+	t.Name = fmt.Sprintf("%s.%s[%s]%s", table, t.Col, t.Handle, when)
+	return t
+}
+
+// callResult: result idx of a call; package-local helpers are inlined (depth-limited),
+// everything else is an uninterpreted function of its argument terms.
+func (e *termEval) callResult(call *ssa.Call, idx int, fr *frame) *Term {
+	m := e.m
+	cc := call.Common()
+	callee := cc.StaticCallee()
+	if callee != nil && m.inPkg(callee) && len(callee.Blocks) > 0 && fr.depth < 2 && callee != m.A.TxnRunner && callee != m.A.Allocator && m.isWriteHelper(callee) {
+		// do not inline functions that run SQL themselves unless they are handle-taking helpers
+		cfr := fr.inline(call, callee)
+		var ts []*Term
+		for _, ret := range returnsOf(callee) {
+			if idx < len(ret.Results) && !m.isFailureReturn(ret) {
+				ts = append(ts, e.term(ret.Results[idx], ret, cfr))
+			}
+		}
+		if len(ts) > 0 {
+			return mkPhi(ts)
+		}
+	}
+	name := "dynamic"
+	if callee != nil {
+		name = callee.Name()
+		if callee.Pkg != nil && callee.Pkg != m.SSA {
+			name = callee.Pkg.Pkg.Name() + "." + name
+		}
+	} else if cc.IsInvoke() {
+		name = "invoke." + cc.Method.Name()
+	}
+	var args []*Term
+	for _, a := range cc.Args {
+		// variadic packs: expand
+		if sl, ok := a.(*ssa.Slice); ok {
+			if vals, dyn := varargValues(sl); !dyn {
+				for _, v := range vals {
+					args = append(args, e.term(v, call, fr))
+				}
+				continue
+			}
+		}
+		args = append(args, e.term(a, call, fr))
+	}
+	if cc.IsInvoke() {
+		args = append([]*Term{e.term(cc.Value, call, fr)}, args...)
+	}
+	if idx > 0 {
+		name += fmt.Sprintf("#%d", idx)
+	}
+	// idempotent offset-to-absolute: abs(abs(x)) == abs(x)
+	if callee != nil && callee == m.A.AbsExpiry && len(args) == 1 {
+		inner := args[0]
+		allAbs := true
+		for _, alt := range inner.alts() {
+			if !(alt.Kind == "call" && alt.Name == name) {
+				allAbs = false
+			}
+		}
+		if allAbs {
+			return inner
+		}
+	}
+	return &Term{Kind: "call", Name: name, Args: args}
+}
+
+// ---------------------------------------------------------------------------
+// write units
+// ---------------------------------------------------------------------------
+
+type colSrc struct {
+	Kind string // bound, literal, sqlexpr, unassigned
+	Term *Term
+	Expr *sqlp.Expr
+}
+
+func (c colSrc) String() string {
+	switch c.Kind {
+	case "bound":
+		return "bound " + c.Term.String()
+	case "literal", "sqlexpr":
+		return c.Kind + " " + c.Expr.String()
+	}
+	return c.Kind
+}
+
+// writeUnit is one documents-writing statement variant reached from a transaction closure.
+type writeUnit struct {
+	K       *ssa.Function // the transaction closure
+	Site    *SQLSite
+	Variant *Variant
+	Stmt    *sqlp.Stmt
+	Frame   *frame          // frame in which the site's arguments are evaluated
+	Point   ssa.Instruction // the instruction in K that performs (or leads to) the write
+	Cols    map[string]colSrc
+	Upsert  bool
+}
+
+// closureFrame builds the frame of transaction closure K: its lexical parent as top frame.
+func (m *Model) closureFrame(K *ssa.Function) *frame {
+	if K.Parent() == nil {
+		return topFrame(K)
+	}
+	return &frame{fn: K, caller: m.closureFrame(K.Parent())}
+}
+
+func (m *Model) writeUnits(e *termEval) []*writeUnit {
+	var out []*writeUnit
+	for _, tc := range m.txnClosures() {
+		if tc.Fn == m.A.AllocClos {
+			continue
+		}
+		K := tc.Fn
+		kfr := m.closureFrame(K)
+		for _, dw := range m.docWrites() {
+			var fr *frame
+			var point ssa.Instruction
+			if dw.Site.Fn == K {
+				fr, point = kfr, dw.Site.Call
+			} else {
+				// helper called from K
+				m.eachCall(K, func(c ssa.CallInstruction) {
+					if callee := c.Common().StaticCallee(); callee == dw.Site.Fn {
+						fr, point = kfr.inline(c, callee), c
+					}
+				})
+			}
+			if fr == nil {
+				continue
+			}
+			wu := &writeUnit{K: K, Site: dw.Site, Variant: dw.Variant, Stmt: dw.Stmt, Frame: fr, Point: point, Cols: map[string]colSrc{}, Upsert: dw.W.HasUpsert}
+			docs := m.Schema.Table("documents")
+			for _, cn := range docs.Order {
+				col := lower(cn)
+				var ex *sqlp.Expr
+				// for an upsert the update part describes the existing-row case; prefer it, fall back to insert
+				if dw.W.Update != nil {
+					ex = dw.W.Update[col]
+				}
+				if ex == nil && dw.W.Insert != nil {
+					ex = dw.W.Insert[col]
+				}
+				switch {
+				case ex == nil:
+					wu.Cols[col] = colSrc{Kind: "unassigned"}
+				case ex.Kind == sqlp.EParam:
+					b, ok := dw.Site.bindingFor(ex)
+					if !ok || b.V == nil {
+						wu.Cols[col] = colSrc{Kind: "bound", Term: &Term{Kind: "opaque", Name: "unbound-parameter"}, Expr: ex}
+					} else {
+						bfr := fr
+						wu.Cols[col] = colSrc{Kind: "bound", Term: e.term(b.V, dw.Site.Call, bfr), Expr: ex}
+					}
+				case ex.Kind == sqlp.ELit:
+					wu.Cols[col] = colSrc{Kind: "literal", Expr: ex}
+				default:
+					wu.Cols[col] = colSrc{Kind: "sqlexpr", Expr: ex}
+				}
+			}
+			out = append(out, wu)
+		}
+	}
+	return out
+}
+
+// eventAtReturns: the field terms of the event object a closure returns (or, for closures
+// that store the event in a captured cell, of that cell's object) at its success returns.
+func (m *Model) eventAtReturns(e *termEval, K *ssa.Function) (map[*types.Var]*Term, bool, string) {
+	a := &m.A
+	if a.EventType == nil {
+		return nil, false, "event type unresolved"
+	}
+	st := a.EventType.Underlying().(*types.Struct)
+	kfr := m.closureFrame(K)
+	rd := m.reaching(K)
+	fields := map[*types.Var][]*Term{}
+	nEv := 0
+	nilOnly := true
+	for _, ret := range returnsOf(K) {
+		var evV ssa.Value
+		for _, res := range ret.Results {
+			if pt, ok := res.Type().(*types.Pointer); ok && pt.Elem() == a.EventType {
+				evV = res
+			}
+		}
+		state := rd.at[ret]
+		if evV == nil {
+			// closure stores the event in a captured cell (writeWithMeta): find a FreeVar of type **event
+			for _, fv := range K.FreeVars {
+				if pt, ok := fv.Type().(*types.Pointer); ok {
+					if pt2, ok := pt.Elem().(*types.Pointer); ok && pt2.Elem() == a.EventType {
+						ds := state[loc{fv, -1}]
+						if len(ds) == 1 && ds[0].kind == dStore {
+							evV = ds[0].store.Val
+						}
+					}
+				}
+			}
+		}
+		if evV == nil {
+			continue
+		}
+		// error returns carry no event worth checking: skip returns whose event is the nil constant
+		if c, ok := stripConv(evV).(*ssa.Const); ok && c.Value == nil {
+			continue
+		}
+		// several allocation sites may flow to the return (phi): check each
+		var objs []ssa.Value
+		var collect func(v ssa.Value, depth int)
+		collect = func(v ssa.Value, depth int) {
+			v = stripConv(v)
+			if phi, ok := v.(*ssa.Phi); ok && depth < 4 {
+				for _, ed := range phi.Edges {
+					collect(ed, depth+1)
+				}
+				return
+			}
+			if c, ok := v.(*ssa.Const); ok && c.Value == nil {
+				return
+			}
+			objs = append(objs, m.objOf(v, state))
+		}
+		collect(evV, 0)
+		for _, obj := range objs {
+			nilOnly = false
+			nEv++
+			for i := 0; i < st.NumFields(); i++ {
+				l := loc{obj, i}
+				ds, have := state[l]
+				if !have {
+					ds = defset{entryDef}
+				}
+				fields[st.Field(i)] = append(fields[st.Field(i)], e.defsTerm(l, ds, ret, kfr))
+			}
+		}
+	}
+	if nEv == 0 {
+		if nilOnly {
+			return nil, false, "the closure returns no event"
+		}
+		return nil, false, "cannot identify the event object the closure returns"
+	}
+	out := map[*types.Var]*Term{}
+	for f, ts := range fields {
+		out[f] = mkPhi(ts)
+	}
+	return out, true, ""
+}
+
+// isWriteHelper: a package function that works on the transaction handle, the queryable
+// interface or an event object (these are inlined; everything else is an uninterpreted symbol).
+func (m *Model) isWriteHelper(fn *ssa.Function) bool {
+	for _, p := range fn.Params {
+		t := p.Type()
+		if isPtrToNamed(t, "database/sql", "Tx") || t == types.Type(m.A.Queryable) {
+			return true
+		}
+		if pt, ok := t.(*types.Pointer); ok && m.A.EventType != nil && pt.Elem() == m.A.EventType && p != fn.Params[0] {
+			return true
+		}
+	}
+	return false
+}
+
+// isFailureReturn: a return of an inlined helper that reports an error (its results are
+// not used by callers that test the error first).
+func (m *Model) isFailureReturn(ret *ssa.Return) bool {
+	if len(ret.Results) == 0 {
+		return false
+	}
+	errV := ret.Results[len(ret.Results)-1]
+	if !types.Identical(errV.Type(), types.Universe.Lookup("error").Type()) {
+		return false
+	}
+	if c, ok := errV.(*ssa.Const); ok && c.Value == nil {
+		return false
+	}
+	if _, ok := errV.(*ssa.MakeInterface); ok {
+		return true
+	}
+	// origins of the returned error
+	origins := map[ssa.Value]bool{}
+	var collect func(v ssa.Value, d int)
+	collect = func(v ssa.Value, d int) {
+		if d > 3 || v == nil || origins[v] {
+			return
+		}
+		origins[v] = true
+		switch x := v.(type) {
+		case *ssa.Phi:
+			for _, e := range x.Edges {
+				collect(e, d+1)
+			}
+		case *ssa.Call:
+			for _, a := range x.Common().Args {
+				if types.Identical(a.Type(), types.Universe.Lookup("error").Type()) {
+					collect(a, d+1)
+				}
+			}
+		}
+	}
+	collect(errV, 0)
+	fn := ret.Parent()
+	for _, ct := range controllingConds(fn, ret.Block()) {
+		cd := condOf(ct.If)
+		eq, ok := cd.equalEdge()
+		if !ok || !(isNilConst(cd.X) || isNilConst(cd.Y)) {
+			continue
+		}
+		other := cd.X
+		if isNilConst(cd.X) {
+			other = cd.Y
+		}
+		if !origins[stripConv(other)] && !origins[other] {
+			continue
+		}
+		taken := ct.If.Block().Succs[0]
+		if !ct.Branch {
+			taken = ct.If.Block().Succs[1]
+		}
+		if taken != eq {
+			return true // reached through "err != nil"
+		}
+	}
+	return false
+}
